@@ -8,11 +8,16 @@ pub mod selftest;
 
 pub mod gen_codec;
 
+pub mod c02;
 pub mod c03;
+pub mod c05;
+pub mod c06;
 pub mod c07;
+pub mod c09;
 pub mod c11;
 pub mod c12;
 pub mod c14;
+pub mod c17;
 
 /// A violation found by a (possibly parallel) sweep, before it is handed to the context.
 #[derive(Clone, Debug)]
@@ -32,10 +37,15 @@ pub fn found(key: impl Into<String>, what: impl Into<String>, case: Value) -> Fo
 
 pub fn run(id: &str, tier: Tier) {
     match id {
+        "C02" => c02::run(tier),
         "C03" => c03::run(tier),
+        "C05" => c05::run(tier),
+        "C06" => c06::run(tier),
         "C07" => c07::run(tier),
+        "C09" => c09::run(tier),
         "C11" => c11::run(tier),
         "C14" => c14::run(tier),
+        "C17" => c17::run(tier),
         "C12" => c12::run(tier),
         _ => machinery_error(&format!("no check for property {}", id)),
     }
@@ -55,10 +65,15 @@ pub fn replay_file(path: &str) -> i32 {
     let id = v.get("property").and_then(|s| s.as_str()).unwrap_or("").to_string();
     let case = v.get("case").cloned().unwrap_or(Value::Null);
     let r: Result<Option<String>, String> = match id.as_str() {
+        "C02" => c02::replay(&case),
         "C03" => c03::replay(&case),
+        "C05" => c05::replay(&case),
+        "C06" => c06::replay(&case),
         "C07" => c07::replay(&case),
+        "C09" => c09::replay(&case),
         "C11" => c11::replay(&case),
         "C14" => c14::replay(&case),
+        "C17" => c17::replay(&case),
         "C12" => c12::replay(&case),
         _ => Err(format!("no replay for property {}", id)),
     };
